@@ -48,7 +48,10 @@ class Cost:
         self.name, self.vector = name, vector
 
     def __call__(self, x):
-        v = COSTS[self.name](x)
+        if self.name == 'infwall':      # a finite bowl with a region where the user's cost itself is +inf
+            v = float('inf') if float(x[0]) > 0.75 else COSTS['sphere'](x)
+        else:
+            v = COSTS[self.name](x)
         if _PROBE['on']:        # see map_probe
             if _PROBE['fp'] is None:
                 _PROBE['fp'] = rng_fingerprint()
@@ -125,13 +128,16 @@ def apply_call(s, name, spec):
     elif name == 'penalty':
         s.SetPenalty(penalty)
     elif name == 'limits':
-        s.SetEvaluationLimits(generations=spec['maxgen'], evaluations=spec['maxfun'])
+        s.SetEvaluationLimits(generations=spec['maxgen'], evaluations=spec['maxfun'], **({'new': True} if spec.get('limits_new') else {}))
     elif name == 'termination':
         s.SetTermination(_termination(spec['term']))
     elif name == 'genmon':
         s.SetGenerationMonitor(Monitor())
     elif name == 'evalmon':
-        s.SetEvaluationMonitor(Monitor())
+        m = Monitor()
+        for k in range(spec.get('preloaded', 0)):       # a monitor that already holds records when it is installed
+            m([float(k)] * n, 100.0 + k)
+        s.SetEvaluationMonitor(m)
     elif name == 'reducer':
         s.SetReducer(sum, arraylike=True)
     elif name == 'savefreq':
@@ -185,6 +191,12 @@ def gen_perm_specs(seed, n_per_solver, sizes):
                             calls=list(calls), tight=tight, clip=clip, maxgen=rng.choice([3, 6, 50]),
                             maxfun=rng.choice([25, 10 ** 6]), term=rng.choice(['vtr', 'cog', 'ncog']),
                             strategy=rng.choice(STRATEGIES), seed=rng.randrange(10 ** 6), nsteps=rng.choice([6, 10])))
+        # limits given with new=True next to an evaluation monitor that already holds records (own generator)
+        r2 = random.Random(seed * 23 + 5 + len(out))
+        for extra in (['evalmon', 'limits'], ['evalmon', 'limits', 'penalty']):
+            out.append(dict(kind='perm', solver=solver, ndim=r2.choice([1, 2, 3]), cost=r2.choice(sorted(COSTS)), calls=sorted(extra),
+                            tight=None, clip=None, maxgen=50, maxfun=r2.choice([20, 35]), term='vtr', strategy=r2.choice(STRATEGIES),
+                            seed=r2.randrange(10 ** 6), nsteps=10, preloaded=r2.choice([3, 8]), limits_new=True))
     return out
 
 
@@ -293,7 +305,7 @@ def run_de2(spec, mapname):
     if spec['evalmon']:
         s.SetEvaluationMonitor(Monitor())
     s.SetTermination(_termination(spec['term']))
-    s.SetEvaluationLimits(generations=spec['nsteps'] + 15)
+    s.SetEvaluationLimits(generations=spec['nsteps'] + 15, **({'evaluations': spec['maxfun']} if spec.get('maxfun') else {}))
     if mapname != 'builtin':
         s.SetMapper(MAPS[mapname])
     s.SetObjective(Cost(spec['cost']))
@@ -315,7 +327,12 @@ def gen_de2_specs(seed, n):
                  bounds=rng.choice([False, True, 'tight']), cons=rng.random() < 0.4, pen=rng.random() < 0.4,
                  evalmon=rng.random() < 0.4, term=rng.choice(['vtr', 'cog', 'ncog']), cr=rng.choice([0.1, 0.5, 0.9, 1.0]),
                  f=rng.choice([0.4, 0.8, 1.2]), seed=rng.randrange(10 ** 6), nsteps=rng.choice([3, 8, 15]))
-            for _ in range(n)]
+            for _ in range(n)] + [
+        # a cost that is +inf in part of the box, an evaluation monitor and a binding evaluation limit (own generator)
+        dict(kind='de2map', ndim=r2.choice([2, 3]), npop=r2.choice([6, 9]), cost='infwall', strategy=r2.choice(STRATEGIES), bounds=False,
+             cons=False, pen=False, evalmon=True, term='vtr', cr=0.9, f=0.8, seed=r2.randrange(10 ** 6), nsteps=3,
+             maxfun=r2.choice([60, 90]))
+        for r2 in [random.Random(seed * 29 + 3 + j) for j in range(max(1, n // 20))]]
 
 
 def check_de2(spec, maps, res, extra=None):
@@ -329,7 +346,10 @@ def check_de2(spec, maps, res, extra=None):
             continue
         res.case('de2:%s:%d' % (m, spec['seed']))
         if t != ref:
-            res.violation(P + 'de2-maps/trajectory-differs-from-builtin-serial-map',
+            # known sub-case (F48): the user's cost returns inf and the run is stopped by an evaluation limit -- the builtin
+            # map counts the monitor's records, every other map counts the finite energies (F6)
+            sub = '#cost-returns-inf,evaluation-limit' if (spec['cost'] == 'infwall' and spec.get('maxfun')) else ''
+            res.violation(P + 'de2-maps/trajectory-differs-from-builtin-serial-map' + sub,
                           'map=%s: %s' % (m, first_diff(ref, t)), jsonable(dict(spec, map=m)))
 
 
